@@ -228,6 +228,20 @@ def protocol_clause(ctx, a, b, n, pool, kind):
         {'name': 'Fresh', 'interface': hx(tb), 'implementation': hx(ta)}]}
     case = {'check': 'protocol', 'a': ta, 'b': tb, 'n': n, 'kind': kind, 'abs': to_json([a, b]), 'pool': list(pool)}
     p1, p2 = Protocol(old), Protocol(new)
+    import zlib
+    exported = zlib.crc32(('%s|%s|%d' % (ta, tb, n)).encode()) % 2 == 0
+    if exported:
+        # other uses of the same objects in between (listing the files, exporting a tarball) change nothing about them
+        before = (list(p1), list(p2))
+        for px in (p1, p2):
+            st0, out0 = call(px.export_tar, os.path.join(ctx.wd, 'exported.tar'))
+            if st0 == 'raised':
+                ctx.mismatch('C30:protocol:export:raises-' + out0.split(':')[0], 'Protocol.export_tar() raised %s' % out0, dict(case, exported=True))
+                return False
+        if (list(p1), list(p2)) != before:
+            ctx.mismatch('C30:protocol:export:changes-the-protocol', 'after export_tar() the protocol lists the files %r, before %r' % ([f for f, _ in list(p2)], [f for f, _ in before[1]]), dict(case, exported=True))
+            return False
+        case = dict(case, exported=True)
     st, d = call(p1.diff, p2, context_size=n)
     if st == 'raised':
         ctx.mismatch('C30:protocol:diff:raises-' + d.split(':')[0], 'Protocol.diff(<Protocol>, context_size=%d) raised %s' % (n, d), case)
